@@ -75,7 +75,7 @@ def render_stmt(s, variant=0):
 
 
 def render_prog(prog, cpu, variant=0):
-    lines = [".%s" % cpu]
+    lines = [".%s" % cpu] if cpu else []
     for i, s in enumerate(prog):
         lines.append(render_stmt(s, variant + i))
     return "\n".join(lines) + "\n"
@@ -87,3 +87,27 @@ def label_names(prog):
         if s["k"] == "label" and s["n"] not in out:
             out.append(s["n"])
     return out
+
+
+def layout(src, variant):
+    """the same program in another layout: comments, line ends, blanks.  None of this changes what the
+    statements denote; it changes what the character source (unget, end of macro text, end of file) sees."""
+    v = (variant // 8) % 7
+    lines = src.rstrip("\n").split("\n")
+    if v == 1:
+        lines = [l + "   ; c" for l in lines]
+    elif v == 2:
+        return "\r\n".join(lines) + "\r\n"
+    elif v == 3:
+        return "\n".join(lines)                       # no line end after the last statement
+    elif v == 4:
+        # (lines with a quoted string keep their blanks: a blank inside a string is content)
+        lines = [l if '"' in l or "'" in l else ("\t" + l.strip() if l.startswith(" ") else l).replace(", ", " ,\t") for l in lines]
+    elif v == 5:
+        lines = [l + " // c" for l in lines]
+    elif v == 6:
+        out = []
+        for l in lines:
+            out += [l, ""]                            # a blank line after every statement
+        lines = out
+    return "\n".join(lines) + "\n"
